@@ -76,7 +76,8 @@ type step struct {
 type options struct {
 	RSeed   int64 `json:"rseed"`
 	Ballast int   `json:"ballast"` // > 0: pre-fill the first log up to about this many bytes
-	Sweep   bool  `json:"sweep"`   // cut / corrupt the last log at EVERY byte of every synced batch
+	Sweep   int   `json:"sweep"`   // for this many flushes: cut / corrupt the last log at EVERY byte of the batch
+	Flips   int   `json:"flips"`   // corruptions per byte in a sweep (1: one random bit; 2: also all bits)
 	Subsets bool  `json:"subsets"` // all subsets of unlinked-but-not-durably-removed files
 }
 
@@ -238,6 +239,8 @@ type runner struct {
 	st    store
 	dead  bool // a divergence was reported: stop this behaviour
 	nBall int  // ballast entries written (must always be read back)
+
+	sweepsDone int
 
 	lastFiller types.Height
 
@@ -903,7 +906,8 @@ func (r *runner) call(i, j int, before [][]int) {
 			r.checkImage(syncImg, "batch-written/cut", i, [][][]int{before}, truncateLog(r.file, cut))
 			r.checkImage(syncImg, "batch-written/garbage-after", i, [][][]int{after}, appendBytes(r.file, r.garbage()))
 		}
-		if r.b.Opts.Sweep {
+		if r.sweepsDone < r.b.Opts.Sweep && r.postSize > r.preSize {
+			r.sweepsDone++
 			r.sweep(syncImg, i, before, after)
 		}
 	}
@@ -1077,7 +1081,11 @@ func (r *runner) sweep(syncImg string, stepNo int, before, after [][]int) {
 		}
 	}
 	for off := r.preSize; off < r.postSize; off++ {
-		for _, mask := range []byte{byte(1 << r.rng.Intn(8)), 0xff} {
+		masks := []byte{byte(1 << r.rng.Intn(8)), 0xff}
+		if r.b.Opts.Flips < 2 {
+			masks = masks[r.rng.Intn(2):][:1]
+		}
+		for _, mask := range masks {
 			c := bytes.Clone(orig)
 			c[off] ^= mask
 			if !try(c, fmt.Sprintf("sweep/flip@+%d/%d", off-r.preSize, r.postSize-r.preSize), before) {
